@@ -24,8 +24,8 @@ def spreading(d, th0, s):
 def point_spectrum(rng, f, d, kind):
     """one (nf, nd) non-negative variance density in m^2/Hz/deg and the wind-sea direction"""
     th0 = rng.uniform(0, 360)
-    if kind in ("jonswap", "pm", "mixed"):
-        fp = rng.uniform(0.1, 0.3)
+    if kind in ("jonswap", "pm", "mixed", "young"):
+        fp = rng.uniform(0.55, 0.7) if kind == "young" else rng.uniform(0.1, 0.3)      # young: equilibrium range above 0.5 Hz
         alpha = rng.choice([0.0081, 0.012, 0.016, 0.02])
         gamma = 1.0 if kind == "pm" else rng.choice([1.0, 2.0, 3.3, 5.0])
         E = jonswap(f, fp, alpha, gamma)[:, None] * spreading(d, th0, rng.choice([2, 4, 8]))[None, :]
@@ -65,6 +65,8 @@ def make_spectrum(rng, npts, nf, nd, kinds, depth_mode, nonuniform_directions=Fa
     import xarray
     from ocean_science_utilities.wavespectra.spectrum import FrequencyDirectionSpectrum
     f = np.linspace(0.04, rng.choice([0.5, 0.8, 1.0]), nf) if rng.random() < 0.6 else 0.04 * 1.12 ** np.arange(nf)
+    if "young" in kinds:
+        f = np.linspace(0.04, 1.0, max(nf, 14))
     d = np.linspace(0, 360, nd, endpoint=False)
     if nonuniform_directions:
         # bins of width w on one half plane and 2w on the other (still covering the circle)
